@@ -50,6 +50,17 @@ Fixpoint grant_count (id : Z) (reqs : list bool) (st : rstate) : nat :=
     end
   end.
 
+(** simultaneous requests of ONE kind for DIFFERENT job ids: how many get a ticket *)
+Fixpoint grant_pool (f : bool) (ids : list Z) (st : rstate) : nat :=
+  match ids with
+  | [] => O
+  | id :: ids' =>
+    match borrow id f st with
+    | Some st' => S (grant_pool f ids' st')
+    | None => grant_pool f ids' st
+    end
+  end.
+
 Inductive rop := OBorrow (id : Z) (full : bool) | OReturn (id : Z).
 
 Definition rstep (st : rstate) (o : rop) : rstate :=
